@@ -15,4 +15,17 @@ func init() {
 		Explanation: "Decides the structural clause of C18: lock pairing on every return path (L1).",
 		NotCovered: "data races on fields ordered by WaitGroup/channels, torn reads, channel-send liveness, general deadlock freedom",
 	})
+
+	registerRule(&RuleDef{ID: "P-IDX", Min: 10, Doc: "index in range in decoders", Run: rulePIDX})
+	registerRule(&RuleDef{ID: "P-ASSERT", Min: 10, Doc: "checked type assertions in decoders", Run: rulePASSERT})
+	registerRule(&RuleDef{ID: "P-NIL", Min: 3, Doc: "optional pointers in decoders", Run: rulePNILdec})
+	registerRule(&RuleDef{ID: "P-NIL-TXN", Min: 3, Doc: "optional operation members", Run: rulePNILtxn})
+	registerRule(&RuleDef{ID: "P-HASH", Min: 2, Doc: "hashable interface map keys in decoders", Run: rulePHASH})
+	registerRule(&RuleDef{ID: "P-DIV", Min: 4, Doc: "integer division", Run: rulePDIV})
+	registerProp(&PropDef{
+		ID:    "C19",
+		Rules: []string{"P-IDX", "P-ASSERT", "P-NIL", "P-HASH", "P-NIL-TXN", "P-DIV"},
+		Explanation: "Decides totality obligations of C19 on input-reachable code.",
+		NotCovered: "unchecked assertions in the transaction path that rely on upstream type validation; resource exhaustion",
+	})
 }
